@@ -658,6 +658,11 @@ def run(ctx):
                             return False
                         if c.func.attr in ('append', 'insert') and isinstance(a_, ast.Name) and member_tested(a_.id, n):
                             continue
+                        if c.func.attr in ('append', 'insert') and isinstance(a_, ast.Name):
+                            # the element iterates over a list of supported versions (a filtering comprehension written as a loop)
+                            its = drd.reaching(n, a_.id)
+                            if its and all(isinstance(v_, tuple) and v_[0] == 'iter' and d_ is not None and only_supported(v_[1], d_, depth + 1) for _, v_, d_ in its):
+                                continue
                         if c.func.attr == 'extend' and only_supported(a_, n, depth + 1):
                             continue
                         why.append('adds %s without membership test' % U(a_))
